@@ -127,23 +127,37 @@ def rule_children(ck):
         qk = f.positional_params[0]
         kids = []
         bad = []
+        exk = Expander(P, f)
         for c in rec:
             a = c.args[0] if c.args else None
             if isinstance(a, ast.BinOp) and isinstance(a.op, ast.Add) and u(a.left) == qk and isinstance(a.right, ast.Constant):
                 kids.append(a.right.value)
+            elif isinstance(a, ast.BinOp) and isinstance(a.op, ast.Add) and u(a.left) == qk and isinstance(a.right, ast.Name) and in_loop(c, f.node) is not None \
+                    and isinstance(in_loop(c, f.node), ast.For) and isinstance(in_loop(c, f.node).target, ast.Name) and in_loop(c, f.node).target.id == a.right.id:
+                # children issued by a loop over a constant sequence of suffixes
+                it = const_value(exk.expand(in_loop(c, f.node).iter))
+                lp = in_loop(c, f.node)
+                if it is not NotImplemented and isinstance(it, (tuple, list, str)) and not any(isinstance(x, (ast.Break, ast.Continue)) for x in ast.walk(lp)) \
+                        and not guards_of(c, lp):
+                    kids.extend(list(it))
+                else:
+                    bad.append('loop over `%s`' % u(lp.iter))
             else:
                 bad.append(u(a) if a is not None else '?')
             # other arguments forwarded unchanged
             rest = [u(x) for x in c.args[1:]]
             if rest != f.positional_params[1:]:
                 bad.append('arguments %s not forwarded unchanged' % rest)
-        if bad or sorted(kids) != ['0', '1', '2', '3']:
+        if bad or sorted(map(str, kids)) != ['0', '1', '2', '3']:
             o.fail('a split issues the children %s %s; it must issue exactly q+\'0\', q+\'1\', q+\'2\', q+\'3\', each once (a missing child leaves a '
                    'hole, a repeated one overlaps)' % (sorted(kids), bad or ''))
         else:
             o.ok("q+'0'..q+'3', each once")
         # all four under the same (split) branch
-        branches = {id(guards_of(c, f.node)[0][0]) if guards_of(c, f.node) else None for c in rec}
+        def split_guard(c):
+            g = [t for t, pol in guards_of(c, f.node)]
+            return id(g[-1]) if g else None
+        branches = {split_guard(c) for c in rec}
         oo = ck.ob('C17-D2.branch', f, 'children issued together', f.node)
         (oo.ok() if len(branches) == 1 and None not in branches else oo.fail('the four children are not issued under one split condition'))
     for q, callee_q in ((Q + 'from_catalog', R + '_create_tile'), (Q + 'from_single_resolution', R + '_create_tile_fix_len')):
@@ -234,12 +248,14 @@ def rule_bounds(ck):
     e = ex.expand(r[0].value) if r else None
     o = ck.ob('C17-D4.rows', f, 'bounds rows = [west, south, east, north] of quadk[i]', r[0] if r else f.node)
     apps = {}
+    exi = Expander(P, f, inline_depth=1, keep={qk} if False else set())
     for n in all_nodes(f):
         if isinstance(n, ast.Call) and isinstance(n.func, ast.Attribute) and n.func.attr == 'append' and isinstance(n.func.value, ast.Name):
             a = n.args[0]
-            apps[n.func.value.id] = u(a)
+            apps[n.func.value.id] = u(exi.expand(a)).replace('__index__(builtins.len(%s))' % f.positional_params[0], 'i')
     qk = f.positional_params[0]
     tmpl = 'mercantile.bounds(mercantile.quadkey_to_tile(%s[i])).%%s' % qk
+    apps = {k_: v_.replace('numpy.asarray(%s)' % qk, qk) for k_, v_ in apps.items()}
     lists = {}
     for name, txt in apps.items():
         for side in ('west', 'south', 'east', 'north'):
